@@ -411,12 +411,15 @@ class LogHistory(EPHistory):
         super().__init__(*a, **kw)
         self.log = []
         self.mid = []
+        self.on_entry = None
 
     def __call__(self, factor, approx, status=Status()):
         self.log.append((factor, approx, status))
         out = super().__call__(factor, approx, status)
         # read - append - read: the accessors of the SAME FactorHistory object are read after every entry
         self.mid.append(access_row(self[factor]))
+        if self.on_entry:
+            self.on_entry()
         return out
 
 
@@ -511,6 +514,14 @@ def run_par(c):
     out["final"] = state_obs(final, factors, index)
     out["access"] = access_obs(hist, factors)
     return out
+
+
+def tokens(fn):
+    try:
+        x = fn()
+        return x if isinstance(x, list) else [x]
+    except exc.HistoryException:
+        return None
 
 
 class Analysis(af.Analysis):
@@ -615,7 +626,18 @@ def run_decl(c):
         return out
     factors_ref.extend(factors)
     hist = make_history(factors, r.get("stop"), default=r.get("history") == "default")
-    res_early = None
+    # ONE EPResult object made before the fit on the history the fit fills, read after every recorded entry: at the
+    # end it must report what a fresh EPResult reports
+    res_early = EPResult(ep_history=hist, declarative_factor=top, updated_ep_mean_field=approx)
+
+    def read_groups(res_):
+        ge = [tokens(lambda: res_.latest_results)]
+        for h in hier_groups:
+            ge.append(tokens(lambda: res_.latest_for(h).results))
+        for fac in top.model_factors:
+            ge.append(tokens(lambda: res_.latest_for(fac)))
+        return ge
+    hist.on_entry = lambda: read_groups(res_early)
     if r["mode"] == "optimise":
         res = top.optimise(rec, ep_history=hist, max_steps=r["max_steps"])
         final = res.updated_ep_mean_field
@@ -630,21 +652,10 @@ def run_decl(c):
                           factor_order=[gf[gf.index(factors[i])] for i in r["order"]],
                           updater=make_updater(r["delta"], factors), **kw)
 
-        def between(o):
-            nonlocal res_early
-            # an EPResult made (and read) after the first call must report the most recent state after the second
-            res_early = EPResult(ep_history=hist, declarative_factor=top, updated_ep_mean_field=final_mid[0])
-            for fn in (lambda: res_early.latest_results, lambda: [res_early.latest_for(f_) for f_ in top.model_factors]):
-                try:
-                    fn()
-                except exc.HistoryException:
-                    pass
-        final_mid = [None]
         if r.get("split") is not None:
-            final_mid[0] = opt.run(top.mean_field_approximation(), max_steps=r["split"])
+            final_mid = opt.run(top.mean_field_approximation(), max_steps=r["split"])
             out["n_mid"] = len(hist.log)
-            between(opt)
-            final = opt.run(final_mid[0], max_steps=r["max_steps"] - r["split"])
+            final = opt.run(final_mid, max_steps=r["max_steps"] - r["split"])
         else:
             final = opt.run(top.mean_field_approximation(), max_steps=r["max_steps"])
         res = EPResult(ep_history=hist, declarative_factor=top, updated_ep_mean_field=final)
@@ -654,27 +665,8 @@ def run_decl(c):
     out["final"] = state_obs(final, factors, index)
     out["final_global"] = nat(final.mean_field, index)
     out["access"] = access_obs(hist, factors)
-    groups = []
-
-    def tokens(fn):
-        try:
-            x = fn()
-            return x if isinstance(x, list) else [x]
-        except exc.HistoryException:
-            return None
-    groups.append(tokens(lambda: res.latest_results))
-    for h in hier_groups:
-        groups.append(tokens(lambda: res.latest_for(h).results))
-    for fac in top.model_factors:
-        groups.append(tokens(lambda: res.latest_for(fac)))
-    out["groups"] = groups
-    if res_early is not None:
-        ge = [tokens(lambda: res_early.latest_results)]
-        for h in hier_groups:
-            ge.append(tokens(lambda: res_early.latest_for(h).results))
-        for fac in top.model_factors:
-            ge.append(tokens(lambda: res_early.latest_for(fac)))
-        out["groups_early_object"] = ge
+    out["groups"] = read_groups(res)
+    out["groups_early_object"] = read_groups(res_early)
     # EPResult.model: the posterior reported for every path of every model factor
     posterior = []
     try:
